@@ -285,3 +285,46 @@ def run(ctx, rep):
                            "the two implementations differ: %s has calls %s / float ops %s, %s has calls %s / float ops %s" % (
                                sc["a"].split("::")[-2], sorted(sigs["a"][0] - sigs["b"][0]), sorted(sigs["a"][1] - sigs["b"][1]),
                                sc["b"].split("::")[-2], sorted(sigs["b"][0] - sigs["a"][0]), sorted(sigs["b"][1] - sigs["a"][1]))))
+
+    skipmap(ctx, rep)
+
+
+def skipmap(ctx, rep):
+    """SKIPMAP: the portable attribute that the sequential stage copies out on the skip path carries the final
+    attribute's point->value map: the function that supplies the CopyFrom source reaches the code that copies
+    the map (SetExplicitMapping / SetPointMapEntry).  Without it the published attribute claims an identity
+    mapping while holding fewer values than points (C03: every point maps to an existing value)."""
+    F = ctx.F
+    tab = load_table("c10.json")
+    rep.rules_text.append(
+        "SKIPMAP: in the sequential transform stage the source of the skip path's PointAttribute::CopyFrom is "
+        "obtained from a function that reaches PointAttribute::SetPointMapEntry / SetExplicitMapping (the portable "
+        "attribute gets the final attribute's point map before it is published)")
+    n = 0
+    for fn in F.need("draco::SequentialAttributeDecodersController::TransformAttributesToOriginalFormat"):
+        def is_map(c):
+            return call_base(c) in ("draco::PointAttribute::SetPointMapEntry", "draco::PointAttribute::SetExplicitMapping")
+        suppliers = []
+        for c, b, rk, ev in fn.calls():
+            if c.get("k") == "call" and call_base(c).endswith("::GetPortableAttribute") or \
+                    (c.get("k") == "call" and "Portable" in call_base(c) and "PointAttribute" in (c.get("ret") or "")):
+                suppliers.append(c)
+        # lambdas / helpers the stage was split into
+        if not suppliers:
+            for c, b, rk, ev in fn.calls():
+                for t in (F.targets(c) if c.get("k") == "call" and not c.get("virt") else []):
+                    for c2, b2, rk2, ev2 in t.calls():
+                        if c2.get("k") == "call" and "Portable" in call_base(c2) and "PointAttribute" in (c2.get("ret") or ""):
+                            suppliers.append(c2)
+        if not suppliers:
+            rep.note("SKIPMAP: no portable-attribute supplier call found in the sequential transform stage (not decided)")
+            continue
+        for c in suppliers[:1]:
+            n += 1
+            ok = any(reaches_call(F, t, is_map, depth=2) for t in F.targets(c))
+            rep.add(Obligation("SKIPMAP", fn.base, "source of the skip path's CopyFrom: " + call_base(c).replace("draco::", ""),
+                               fn.site(c.get("loc", "")), DISCHARGED if ok else VIOLATION,
+                               detail="the supplier copies the final attribute's point map onto the portable attribute"
+                               if ok else "%s no longer reaches SetPointMapEntry / SetExplicitMapping: the attribute "
+                               "published on the skip path has no point map" % call_base(c)))
+    return n
